@@ -25,7 +25,11 @@ const verifDir = "/verif"
 
 func loadSpecs() (*Specs, error) {
 	sp := newSpecs()
-	files, _ := filepath.Glob(filepath.Join(verifDir, "spec", "*.spec"))
+	specDir := filepath.Join(verifDir, "spec")
+	if d := os.Getenv("GOVC_SPEC_DIR"); d != "" {
+		specDir = d // development only: try spec changes without touching the files the registered checks read
+	}
+	files, _ := filepath.Glob(filepath.Join(specDir, "*.spec"))
 	sort.Strings(files)
 	for _, f := range files {
 		if err := sp.loadFile(f, false); err != nil {
